@@ -288,6 +288,10 @@ def build(spec):
             next_major[0] += 1
             minor_count[major_of[key]] = 0
         mj = major_of[key]
+        if ad.get("as") is not None and next_major[0] > 2:
+            # stress mode: file the allele under another group's number (name-prefix collision)
+            mj = 1 + ad["as"] % (next_major[0] - 1)
+            minor_count.setdefault(mj, 0)
         # skip exact duplicates unless stress mode asks for them
         dup = any(t["sites"] == idx and t["sv"] == sv for t in truth.values())
         if dup and not ad.get("dup"):
@@ -390,9 +394,11 @@ def db_specs(draw, kinds=KINDS_READS, max_sites=10, max_alleles=9, sv=True, pseu
                      st.integers(0, 10 ** 6)).map(list)
     spec["sites"] = draw(st.lists(site, min_size=2, max_size=max_sites))
     ns = len(spec["sites"])
-    plain = st.builds(lambda s, lab, dup: {"sites": s, **({"label": lab} if lab else {}), **({"dup": True} if dup else {})},
+    plain = st.builds(lambda s, lab, dup, as_: {"sites": s, **({"label": lab} if lab else {}), **({"dup": True} if dup else {}),
+                                                **({"as": as_} if as_ is not None else {})},
                       st.lists(st.integers(0, ns - 1), min_size=1, max_size=4), st.sampled_from(["", "", "A", "B"]) if stress else st.just(""),
-                      st.booleans() if stress else st.just(False))
+                      st.booleans() if stress else st.just(False),
+                      (st.none() | st.none() | st.integers(0, 8)) if stress else st.none())
     alls = draw(st.lists(plain, min_size=1, max_size=max_alleles))
     if sv:
         svs = []
